@@ -821,7 +821,7 @@ def direct_connect_outputs(block=None):
     wirevectors_to_remove = set()
 
     for net in block.logic:
-        if net.op == '@':
+        if net.op in '@r':
             continue
 
         dest_wire = net.dests[0]
